@@ -24,6 +24,11 @@ func (x *Exec) verifyFunction(fn *ssa.Function, c *FuncContract) (rep FuncReport
 	x.curTop = fn
 	x.curTopName = funcFull(fn)
 	x.safetyOn = c == nil || c.Safety != "off"
+	x.partialMode = c != nil && c.Partial
+	if x.partialMode {
+		x.trusted["partial contract: only the ensures / assert-before-call clauses of "+funcFull(fn)+" are checked; its loops, callee preconditions and run-time safety are not claimed"] = true
+	}
+	defer func() { x.partialMode = false }()
 	startPaths := x.paths
 	startObls := len(x.obls)
 	defer func() {
